@@ -6082,7 +6082,10 @@ static size_t ZSTD_compressStream_generic(ZSTD_CStream* zcs,
     assert(output->pos <= output->size);
     assert((U32)flushMode <= (U32)ZSTD_e_end);
 
-    while (someMoreWork) {
+    while (someMoreWork)
+    ZSTD_VERIF_LOOP(ZSTD_VERIF_CSTREAM_LOOP(zcs, ip, istart, iend, op, ostart, oend, someMoreWork, flushMode))
+    {
+        ZSTD_VERIF_GHOST(ZSTD_VERIF_REBASE(ip, istart); ZSTD_VERIF_REBASE(op, ostart);)
         switch(zcs->streamStage)
         {
         case zcss_init:
@@ -6098,6 +6101,7 @@ static size_t ZSTD_compressStream_generic(ZSTD_CStream* zcs,
                                                 op, oend-op, ip, iend-ip);
                 DEBUGLOG(4, "ZSTD_compressEnd : cSize=%u", (unsigned)cSize);
                 FORWARD_IF_ERROR(cSize, "ZSTD_compressEnd failed");
+                ZSTD_VERIF_GHOST(zstd_verif_ghost.cs_loaded += (size_t)(iend - ip);)
                 ip = iend;
                 op += cSize;
                 zcs->frameEnded = 1;
@@ -6112,6 +6116,7 @@ static size_t ZSTD_compressStream_generic(ZSTD_CStream* zcs,
                                         ip, iend-ip);
                 zcs->inBuffPos += loaded;
                 if (ip) ip += loaded;
+                ZSTD_VERIF_GHOST(zstd_verif_ghost.cs_loaded += loaded;)
                 if ( (flushMode == ZSTD_e_continue)
                   && (zcs->inBuffPos < zcs->inBuffTarget) ) {
                     /* not enough input to fill full block : stop here */
